@@ -102,7 +102,8 @@ func xLateVerdict(c *rig.Ctx, r *rand.Rand, pre string) {
 	oldAck, newAck := r.Intn(2) == 0, r.Intn(2) == 0
 	oldVerdict := []string{"approve", "approve", "deny"}[r.Intn(3)]
 	newVerdict := []string{"approve", "approve", "deny"}[r.Intn(3)]
-	c.Shape(fmt.Sprintf("%s k=%d same-element=%v old-verdict=%s new-verdict=%s acks=%v/%v", pre, k, sameElem, oldVerdict, newVerdict, oldAck, newAck))
+	parked := k >= 2 && r.Intn(3) == 0
+	c.Shape(fmt.Sprintf("%s k=%d same-element=%v old-verdict=%s new-verdict=%s acks=%v/%v parked-approval=%v", pre, k, sameElem, oldVerdict, newVerdict, oldAck, newAck, parked))
 	connect := func(what string, elem int, val int64, ack bool) (model.MsgCounterType, bool) {
 		X.Ctr = ctr0
 		X.Announce(tree)
@@ -149,9 +150,41 @@ func xLateVerdict(c *rig.Ctx, r *rand.Rand, pre string) {
 		return
 	}
 	origOld, origNew := value(oldElem), value(newElem)
-	w.Local.RemoveRemoteDeviceConnection(X.Ski)
+	if parked {
+		// one approval of the old write is inside ApproveOrDenyWrite (past its lookup of the pending entry) while the
+		// connection is removed, and continues afterwards: it must not leave anything behind that counts for a later write
+		h := rig.InstallHooks()
+		h.SetMaxWait(30 * time.Second)
+		release := h.Gate("ApproveOrDenyWrite.afterLookup")
+		done := make(chan bool, 1)
+		cb0 := r.Intn(k)
+		go func() { done <- deliver(msgOf(cb0, oldRD, oldMc), approve) }()
+		forced := rig.WaitFor(10*time.Second, func() bool { return h.GateWaiting("ApproveOrDenyWrite.afterLookup") >= 1 })
+		w.Local.RemoveRemoteDeviceConnection(X.Ski)
+		release()
+		select {
+		case okD := <-done:
+			if !okD {
+				h.Uninstall()
+				return
+			}
+		case <-time.After(40 * time.Second):
+			h.Uninstall()
+			c.Inconclusive("the approval parked across the removal did not return within 40s")
+			return
+		}
+		h.Uninstall()
+		if forced {
+			c.Count("late-verdict:approval-parked-across-the-removal", 1)
+		} else {
+			c.Count("late-verdict:approval-not-parked(window-not-forced)", 1)
+		}
+		trace = append(trace, fmt.Sprintf("callback %d approves the first connection's write %d; the call is parked after its lookup (forced=%v), the connection of %s is removed, the call continues and returns", cb0, oldMc, forced, X.Addr))
+	} else {
+		w.Local.RemoveRemoteDeviceConnection(X.Ski)
+		trace = append(trace, "connection of "+X.Addr+" removed while its write is pending approval")
+	}
 	oldTap.Take()
-	trace = append(trace, "connection of "+X.Addr+" removed while its write is pending approval")
 	X.Tap = &rig.Tap{}
 	w.Local.SetupRemoteDevice(X.Ski, X.Tap)
 	X.RD = w.Local.RemoteDeviceForSki(X.Ski)
